@@ -153,6 +153,12 @@ impl Callbacks for Cb {
                 let body = tcx.optimized_mir(did);
                 o.push(("mir".into(), mirdump::dump_body(tcx, did, body)));
                 n_mir += 1;
+                // promoted constants (e.g. `&GDErrorKind::PacketSend` operands) have their own bodies
+                let proms = tcx.promoted_mir(did);
+                if !proms.is_empty() {
+                    let v: Vec<J> = proms.iter().map(|pb| mirdump::dump_body(tcx, did, pb)).collect();
+                    o.push(("promoted".into(), J::Arr(v)));
+                }
             } else if matches!(kind, DefKind::Const { .. } | DefKind::Static { .. } | DefKind::AssocConst { .. }) {
                 let body = tcx.mir_for_ctfe(did);
                 o.push(("mir".into(), mirdump::dump_body(tcx, did, body)));
